@@ -2,7 +2,7 @@
 Byte equality over all sizes/segmentations is a runtime-value property and is NOT decided; decided are the
 structural conditions without which it cannot hold."""
 from mirlib import *
-from common import cancelled_io_findings, whole_reply_findings, own_request_findings
+from common import cancelled_io_findings, whole_reply_findings, own_request_findings, recv_handout_findings
 
 H = "pgcat::client::Client::handle::{closure#0}"
 RECV = "pgcat::server::Server::recv::{closure#0}"
@@ -127,6 +127,23 @@ def run(ctx):
         if w:
             origins(sd, w[0].args[1], through=thr)
         r3.check(okw and not [t for t in thr if re.search(r"Index<.*::index$", t.name)], "server-send-writes-arg", "Server::send writes exactly its `messages` argument", "Server::send does not write its whole argument")
+    # ... and all of it: the write helpers of messages.rs hand their buffer to AsyncWriteExt::write_all, which loops until every byte is taken. A single
+    # `write` / `write_buf` / `write_vectored` returns after one poll_write with however many bytes the socket took - under back-pressure (a client that reads
+    # slowly, a server whose buffer is full) the tail of the piece is dropped without an error
+    nwh = 0
+    for fn in ("pgcat::messages::write_all_flush", "pgcat::messages::write_all", "pgcat::messages::write_all_half"):
+        wb = F.body(fn + "::{closure#0}")
+        if wb is None:
+            continue
+        nwh += 1
+        wcalls = [c for c in wb.calls("re:AsyncWriteExt::(write|write_all|write_buf|write_all_buf|write_vectored|write_u8|write_i32)$")]
+        full = [c for c in wcalls if c.name.endswith(("::write_all", "::write_all_buf"))]
+        part = [c for c in wcalls if c not in full]
+        arg_ok = bool(full) and all(any(o.kind == "param" for o in origins(wb, c.args[1], taint=True)) for c in full)
+        r3.check(bool(full) and not part and arg_ok, "writes-everything:" + fn.split("::")[-1], "%s hands its buffer to write_all" % fn.split("::")[-1],
+                 "%s writes with %s: one poll_write, the count of bytes taken is not looked at - what the socket did not take at once is lost (a mangled reply for a slow client, a server left waiting for the rest of a large request)"
+                 % (fn.split("::")[-1], sorted({c.name.split("::")[-1] for c in part}) or "no write_all"))
+    r3.check(nwh >= 3, "write-helpers", "%d write helpers found" % nwh, "write helpers of messages.rs not found (%d)" % nwh)
     rs = ctx.body(RSM + "::{closure#0}", r3)
     if rs:
         oks = [(blk, st) for blk, i, st in rs.assigns() if st["lhs"]["l"] == 0 and st["rv"]["k"] == "agg" and st["rv"].get("variant") == "Ok"]
@@ -140,46 +157,11 @@ def run(ctx):
     r4.check(n_own >= 4, "own-requests", "%d places send a request of pgcat's own and wait for its reply" % n_own, "only %d own-request sites found (4 known)" % n_own)
     for key, ok, okmsg, failmsg in orf:
         r4.check(ok, key, okmsg, failmsg)
-    if rc:
-        code_sw = [sw for sw in switches(rc) if sw.ty in ("char", "u8", "u32") and any(v == 90 for v, _ in sw.targets) and any(v == 68 for v, _ in sw.targets)]
-        if not code_sw:
-            r4.missing("message-code switch in recv")
+    for key, ok, okmsg, failmsg in recv_handout_findings(F):
+        if ok is None:
+            r4.missing(failmsg)
         else:
-            arms = {v: t for v, t in code_sw[0].targets}
-            clr = [(blk, st) for blk, i, st in rc.assigns() if proj_fields(st["lhs"])[-1:] == ["data_available"] and st["rv"]["k"] == "use" and const_int(st["rv"]["op"]) == 0]
-            sets = [(blk, st) for blk, i, st in rc.assigns() if proj_fields(st["lhs"])[-1:] == ["data_available"] and st["rv"]["k"] == "use" and const_int(st["rv"]["op"]) == 1]
-            # ReadyForQuery ends a reply; CopyInResponse ('G') also ends what the server has to say for now - it waits for the client
-            enders = [arms[c_] for c_ in (90, 71) if c_ in arms]
-            r4.check(bool(clr) and all(any(rc.dominates(a_, blk) for a_ in enders) for blk, st in clr), "only-Z-clears", "data_available is cleared only in the ReadyForQuery ('Z') and CopyInResponse ('G') arms", "data_available is cleared outside the 'Z' / 'G' arms: the reply would be cut at that message")
-            if 71 in arms:
-                garm = {b_ for b_ in range(rc.nblocks) if rc.dominates(arms[71], b_)}
-                succ_g = rc.succ("n")
-                exits_g = sorted({v for u in garm for v in succ_g[u] if v not in garm})
-                wg = rc.uncrossed_path([arms[71]], exits_g, blocks=[blk for blk, st in clr])
-                r4.check(wg is None, "G-clears", "CopyInResponse clears data_available (the server waits for the client now)",
-                         "the CopyInResponse arm leaves data_available as an earlier message of the same reply set it: after `SELECT 1; COPY t FROM STDIN` the receive loop asks the server for more while the server waits for the client's "
-                         "CopyData, which nobody reads - both sides hang (with statement_timeout the server is banned)", "", wg and rc.describe_path(wg))
-            for code, nm in ((68, "DataRow"), (72, "CopyOutResponse")):
-                okc = code in arms and any(rc.dominates(arms[code], blk) for blk, st in sets)
-                r4.check(okc, "sets:%s" % nm, "%s sets data_available before the chunk is handed out" % nm, "%s no longer sets data_available (a reply flushed at the 8 KiB threshold would end the forward loop)" % nm)
-            # early hand-out: recv leaves its read loop before ReadyForQuery only inside the arms of messages after which either more
-            # data is flagged (DataRow / CopyOutResponse / CopyData within a flagged COPY OUT) or the server waits for the client (CopyInResponse)
-            rl = [hd for hd in loop_headers(rc) if any(c.block in natural_loop(rc, hd) for c in rc.calls("pgcat::messages::read_message"))]
-            if rl:
-                lp = natural_loop(rc, max(rl, key=lambda x: len(natural_loop(rc, x))))
-                okb_ = [blk for blk, i, st in rc.assigns() if st["lhs"]["l"] == 0 and st["rv"]["k"] == "agg" and st["rv"].get("variant") == "Ok"]
-                exits_ = {(u, v) for u in lp for v in rc.succ("n")[u] if v not in lp and not rc.blocks[v]["cleanup"] and rc.blocks[v]["term"]["k"] != "unreachable" and (rc.reach([v]) & set(okb_))}
-                allowed_arms = {90: "Z", 68: "D", 71: "G", 72: "H", 100: "d"}
-                badx = []
-                for (u, v) in sorted(exits_):
-                    if u == code_sw[0].block and v in {arms[c_] for c_ in allowed_arms if c_ in arms}:
-                        continue  # the arm itself leaves the loop (e.g. CopyInResponse: break)
-                    if not any(code in arms and rc.dominates(arms[code], u) for code in allowed_arms):
-                        badx.append(u)
-                r4.check(bool(exits_) and not badx, "early-handout-arms", "recv hands out a partial reply only from the Z / D / H / G / d arms (%d exits)" % len(exits_),
-                         "recv can return before ReadyForQuery from a place that is not tied to DataRow/Copy messages (bb%s): with data_available still false the caller stops reading and the client gets a truncated reply without ReadyForQuery" % badx[:3])
-            others = sorted({b_.name for b_, blk, st in F.field_writes(lambda f, b_, st: f == "data_available") if b_.name != RECV})
-            r4.check(not others, "flag-writers", "only Server::recv writes data_available", "data_available written by %s" % others)
+            r4.check(ok, key, okmsg, failmsg)
     # every place of Client::handle that takes a reply from the server takes all of it: a direct receive (not through send_and_receive_loop)
     # sits in a loop that is left only when the server has no more data for this request
     if h:
